@@ -235,6 +235,9 @@ func c08(r *core.Run) {
 	r.Check("C08.P1", "C08.P1@pkg/encryption+store#span = first 8 bytes, data = rest, on both sides", enc.Pos(), okE && okD,
 		"both sides treat the first 8 bytes as span and the rest as data, each with its own cipher", "the span/data split or cipher assignment differs between EncryptChunk and store.decrypt")
 	c08Transform(r)
+	// the decrypting reader strips padding by the (clear) span of each intermediate chunk:
+	// the hash trie must carry the clear span upwards, next to the encrypted data
+	hashtrieRules(r, "C08")
 }
 
 func c09(r *core.Run) {
